@@ -204,7 +204,7 @@ def nontrivial(c, mo, io):
 def relevant_difference(c, mo, io):
     return True
 
-def known_F6_stale_source(c, mo, io):
+def _fixed_F6_stale_source(c, mo, io):
     # a name registered from a file under dev mode is later re-registered by string / precompiled template
     tracked = set(); dev = False
     for o in c['ops']:
